@@ -73,6 +73,8 @@ func (e *Exec) mapLen(st *State, m *Term, mt *types.Map) *Term {
 		return r
 	}
 	ml := e.heapRead(st, mi.ml, ArrSort(SInt))
+	// map lengths are never negative
+	e.emit("(assert (<= 0 %s))", Select(ml, m).S)
 	return Ite(Eq(m, IntLit(0)), IntLit(0), Select(ml, m))
 }
 
